@@ -595,7 +595,10 @@ Proof.
 Qed.
 
 Lemma tsum_ext f f' l : (forall th, In th l -> f th = f' th) -> tsum f l = tsum f' l.
-Proof. induction l as [|x t IH]; cbn; intros H; auto. rewrite H by auto. rewrite IH; auto. Qed.
+Proof.
+  unfold tsum. induction l as [|x t IH]; cbn [fold_right]; intros H; auto.
+  rewrite (H x) by (left; auto). rewrite IH; auto. intros; apply H; right; auto.
+Qed.
 
 Lemma quiescent_count g : Inv g -> Forall (fun th => job th = None) (thr g) -> length (log g) = accepted_total g.
 Proof.
